@@ -420,6 +420,52 @@ static int s_add_std(ctx_t *c, int a, int b)
     return RC(cs_add_std(c->vnp[a], &c->sc, b));
 }
 
+/*
+ * second vnacal_new_t (index 1) of the same vnacal_t using the same
+ * parameter handles on a grid of b more frequencies over the same band
+ */
+static cs_scenario g_sc2;
+static void sc2_sync(ctx_t *c, int more)
+{
+    const cs_vna *v = &c->sc.vna;
+    double fv[CS_MAXF];
+    int n = v->nf + more;
+
+    g_sc2 = c->sc;
+    if (n > CS_MAXF)
+	n = CS_MAXF;
+    for (int i = 0; i < n; ++i)
+	fv[i] = n == 1 ? v->f[0] : v->f[0] +
+	    (v->f[v->nf - 1] - v->f[0]) * i / (n - 1);
+    if (v->nf == 1)
+	for (int i = 0; i < n; ++i)
+	    fv[i] = v->f[0] * (1.0 + 0.02 * i);
+    cs_make_vna_f(&g_sc2.vna, v->type, v->rows, v->cols, n, fv, v->variant);
+}
+
+static int s_new_alloc2(ctx_t *c, int a, int b)
+{
+    (void)a;
+    sc2_sync(c, b);
+    c->vnp[1] = vnacal_new_alloc(c->vcp, g_sc2.vna.type, g_sc2.vna.rows,
+	    g_sc2.vna.cols, g_sc2.vna.nf);
+    return PTR(c->vnp[1]);
+}
+
+static int s_set_freq2(ctx_t *c, int a, int b)
+{
+    (void)a;
+    sc2_sync(c, b);
+    return RC(vnacal_new_set_frequency_vector(c->vnp[1], g_sc2.vna.f));
+}
+
+/* a = standard, b = extra frequencies */
+static int s_add_std2(ctx_t *c, int a, int b)
+{
+    sc2_sync(c, b);
+    return RC(cs_add_std(c->vnp[1], &g_sc2, a));
+}
+
 static int s_solve(ctx_t *c, int a, int b)
 {
     (void)b;
@@ -1094,6 +1140,8 @@ static void obs_vnacal(ctx_t *c, obs_t *o, vnacal_t *vcp, int which)
     unlink(path);
 }
 
+static int g_observe_light;	/* getters only: nothing is saved */
+
 static void observe(ctx_t *c, obs_t *o)
 {
     const hist_t *h = c->h;
@@ -1162,7 +1210,8 @@ static void observe(ctx_t *c, obs_t *o)
 		/* and what a save of the object writes */
 		const char *path = scratch("c12-digest.npd");
 		vnadata_filetype_t ft = vnadata_get_filetype(c->vd[i]);
-		if (ft == VNADATA_FILETYPE_AUTO || ft == VNADATA_FILETYPE_NPD) {
+		if (!g_observe_light && (ft == VNADATA_FILETYPE_AUTO ||
+			    ft == VNADATA_FILETYPE_NPD)) {
 		    int rc = vnadata_save(c->vd[i], path);
 		    obs_i(o, rc);
 		    if (rc == 0)
@@ -1289,7 +1338,7 @@ static const char *add_name(const cs_scenario *sc, int k)
 }
 
 enum { X_PLAIN, X_MERR, X_AUTO, X_TRL, X_CORR, X_AUTO_MERR };
-enum { T_SOLVE = 0, T_ADD = 1, T_FULL = 2, T_MULTI = 3 };
+enum { T_SOLVE = 0, T_ADD = 1, T_FULL = 2, T_MULTI = 3, T_SHARED = 4 };
 
 /*
  * calibration history: create, parameters, new, frequencies, standards,
@@ -1301,7 +1350,9 @@ static void cal_hist(vnacal_type_t type, int rows, int cols, int nf,
     static const char *const xn[] = { "", " m_error", " unknown(LM)", " TRL",
 	" correlated", " unknown+m_error" };
     static const char *const tn[] = { "solve", "solve+add",
-	"solve+add+save+load+apply", "3 calibrations+properties" };
+	"solve+add+save+load+apply", "3 calibrations+properties",
+	"solve, then the same kit solved by a second vnacal_new_t on a "
+	"longer grid, then the first again" };
     hist_t *h = new_hist('C', "cal %s %dx%d nf=%d r%d ev%d av%d kv%d %s%s: %s",
 	    vnacal_type_to_name(type), rows, cols, nf, recipe, ev, av, kv,
 	    ab ? "a/b" : "m", xn[extra], tn[tail]);
@@ -1421,6 +1472,18 @@ static void cal_hist(vnacal_type_t type, int rows, int cols, int nf,
 	ADD(h, s_free_new, 0, 0, "vnacal_new_free");
 	ADD(h, s_save, 1, 0, "vnacal_save");
 	ADD(h, s_load, 1, 0, "vnacal_load");
+    }
+    if (tail == T_SHARED) {
+	/* unknown parameters are stored back with the grid of the solve:
+	   2 more frequencies, then back to the first grid */
+	ADD(h, s_new_alloc2, 0, 2, "vnacal_new_alloc");
+	ADD(h, s_set_freq2, 0, 2, "vnacal_new_set_frequency_vector");
+	for (int k = 0; k < sc->nstd; ++k)
+	    ADD(h, s_add_std2, k, 2, add_name(sc, k));
+	ADD(h, s_solve, 1, 0, "vnacal_new_solve");
+	ADD(h, s_solve, 0, 0, "vnacal_new_solve");
+	ADD(h, s_solve, 1, 0, "vnacal_new_solve");
+	ADD(h, s_free_new, 1, 0, "vnacal_new_free");
     }
     /*
      * slot-reuse observation: release everything that holds parameters,
@@ -1805,6 +1868,10 @@ static void build_histories(void)
     cal_hist(VNACAL_T8,   2, 2, 2, 0, 0, 0, 0, 0, X_TRL, T_FULL);
     cal_hist(VNACAL_UE10, 2, 2, 1, 0, 0, 0, 0, 1, X_TRL, T_ADD);
     cal_hist(VNACAL_T8,   2, 2, 2, 0, 0, 0, 2, 0, X_CORR, T_ADD);
+    /* the same kit with unknown parameters solved by two vnacal_new_t on
+       grids of different length (iterative and closed-form path) */
+    cal_hist(VNACAL_T8,   2, 2, 2, 0, 0, 0, 2, 0, X_AUTO, T_SHARED);
+    cal_hist(VNACAL_U8,   2, 2, 2, 0, 0, 0, 0, 0, X_TRL, T_SHARED);
     param_hists();
     borrow_hists();
     reg_hists();
@@ -1993,6 +2060,29 @@ static int run_history(hist_t *h, long k1, long k2, obs_t *o, runinfo_t *ri,
 			    "message", s, st->name);
 		    goto out;
 		}
+	    }
+	    /*
+	     * "all objects remain usable": between the failed call and its
+	     * repetition every object is read through its getters (faults
+	     * off, allocation numbering untouched); nothing is compared,
+	     * the sanitizers judge.
+	     */
+	    {
+		static obs_t scratch_obs;
+		long save_calls = vf_alloc_calls, f1 = vf_alloc_fail_at,
+		     f2 = vf_alloc_fail_at2;
+		int save_failed = vf_alloc_failed;
+		vf_alloc_fail_at = 0;
+		vf_alloc_fail_at2 = 0;
+		g_observe_light = 1;
+		if (vf_verbose)
+		    printf("  probe after failed step %d (%s)\n", s, st->name);
+		observe(c, &scratch_obs);
+		g_observe_light = 0;
+		vf_alloc_calls = save_calls;
+		vf_alloc_failed = save_failed;
+		vf_alloc_fail_at = f1;
+		vf_alloc_fail_at2 = f2;
 	    }
 	    if (++attempts > 3) {
 		snprintf(sig, sizeof(sig), "retry-failed:%s", st->name);
